@@ -121,7 +121,7 @@ def main():
                                'grid: all mantissas of <= %d digits with the decimal point at every position x every exponent in [-330,310] against strtod; '
                                'long-digits: digit strings of 600..2048 characters (all nines, ones, fives, 49-repeats; integer, fraction, mixed and with uncertainty) at 17 magnitudes from 1e-320 to 1e308, in the ASan/UBSan build, against CPython float(); ties: for every binade (quick: a thinned set) and 7 mantissa patterns the exact value, the exact tie with its successor, tie +-1 ulp of the last decimal digit, '
                                '17/19-digit spellings, 10^(9k) boundaries; format: init_numb/autoinit_numb over classic decimals, binade boundaries and exact decimal ties x scales x su x leading-zero limits x su rules, '
-                               'oracle = exact decimal expansion (printf %%.1100f) rounded half-even by string arithmetic' % ((7 if tier == 'thorough' else 6), (4 if tier == 'thorough' else 3)),
+                               'oracle = exact decimal expansion (printf %%.1100f) rounded half-even by string arithmetic' % ((8 if tier == 'thorough' else 6), (5 if tier == 'thorough' else 3)),
                        'samples': ['7e22', '1.5(3)', '0.99999999999999989', 'init_numb(9.995, 0.015, scale 2, max_leading_zeroes 5)'],
                        'families': {k: {'evaluations': v[0], 'nontrivial': v[1]} for k, v in fam.items()},
                        'oracle_selfcheck_cases': n, 'exhaustive': True},
